@@ -1,5 +1,21 @@
-from mulib import mu_check
+"""C01: writer exclusion / reader sharing.
+L1: Mu.tla (Excl in every state, O-excl on the code).  L2 addition: a caller that hands its mutex to nsync_wait_n together with several
+objects must hold it again on return, whichever object made the call return and wherever registration stopped (Note.tla nwaitn with
+the client mutex: MutexKept; on the code O-ret "returned without holding the caller's mutex" and the ideal lock's ownership checks):
+a caller that wrongly believes it holds the mutex is a second writer."""
+from mulib import *
+import l2lib, notelib
+
+
+def l2_part(run, exe_unused, results, env):
+    exe2 = build("h_l2")
+    N = notelib
+    ncf = [(n, dict(N.note_conf(c), _c=c)) for n, (props, t, c) in N.CONF.items() if "C01" in props and (t == "q" or run.tier == "thorough")]
+    l2lib.run_family(run, exe2, "Note", "C01", ncf, lambda conf: N.consts_of(conf["_c"]), {"MutexKept"}, {"O-ret", "O-excl"})
+    exer = build("h_l2r")
+    l2lib.random_runs(run, exer, "Note", ncf, 1000 if run.tier == "quick" else 30000, "C01", {"O-ret", "O-excl"})
 
 
 def main(tier, replay=None):
-    return mu_check("C01", tier, replay)
+    return mu_check("C01", tier, replay, post=l2_part,
+                    extra_rule="; L2 part: nsync_wait_n given the caller's mutex and two objects (notes, counter) in Note.tla: the mutex is held again on every return")
